@@ -106,6 +106,20 @@ pub fn check_script(s: &SetScript, st: &mut Stats) -> Result<(), String> {
         let k = (s.perm_seed as usize) % alt.len();
         alt.rotate_left(k);
     }
+    // ... and the same multiset in ascending numeric order
+    let mut asc = input_ids.clone();
+    asc.sort_unstable();
+    let out3 = a5::compact(&asc).map_err(|e| format!("compact of the sorted input failed: {}", e))?;
+    {
+        let a: BTreeSet<u64> = out.iter().copied().collect();
+        let c: BTreeSet<u64> = out3.iter().copied().collect();
+        if a != c {
+            return Err(format!(
+                "compact depends on the order of the input: {} -> {} but in ascending order {} -> {}",
+                fmt_ids(&input_ids), fmt_ids(&out), fmt_ids(&asc), fmt_ids(&out3)
+            ));
+        }
+    }
     let out2 = a5::compact(&alt).map_err(|e| format!("compact of a permutation failed: {}", e))?;
     let a: BTreeSet<u64> = out.iter().copied().collect();
     let b2: BTreeSet<u64> = out2.iter().copied().collect();
